@@ -458,9 +458,14 @@ pub fn pty_run(cols: u32, cwd: &Path, bin: &str, args: &[&str]) -> Option<Out> {
 /// The same with the terminal on chosen descriptors only (`fds`: "1", "2" or "12"); the other one of standard output and
 /// standard error is written to the file `other`.
 pub fn pty_run_fds(cols: u32, cwd: &Path, bin: &str, args: &[&str], fds: &str, other: &Path) -> Option<Out> {
+  pty_run_stdin(cols, cwd, bin, args, fds, other, Path::new("/dev/null"))
+}
+
+/// The same with standard input read from the file `stdin`.
+pub fn pty_run_stdin(cols: u32, cwd: &Path, bin: &str, args: &[&str], fds: &str, other: &Path, stdin: &Path) -> Option<Out> {
   let helper = ["tools/pty_run.py", "/verif/tools/pty_run.py"].iter().map(PathBuf::from).find(|p| p.exists())?;
   let helper = std::fs::canonicalize(helper).ok()?;
-  let o = Command::new("python3").arg(helper).arg(cols.to_string()).arg("24").arg(cwd).arg(bin).args(args).env("PTY_FDS", fds).env("PTY_OTHER", other).env_remove("NO_COLOR").stdin(Stdio::null()).output().ok()?;
+  let o = Command::new("python3").arg(helper).arg(cols.to_string()).arg("24").arg(cwd).arg(bin).args(args).env("PTY_FDS", fds).env("PTY_OTHER", other).env("PTY_STDIN", stdin).env_remove("NO_COLOR").stdin(Stdio::null()).output().ok()?;
   let text = String::from_utf8_lossy(&o.stdout).into_owned();
   let mut lines = text.lines();
   let hexed = lines.next()?;
